@@ -142,7 +142,8 @@ APPEND = {
          ' T-tie: gen_time_mask_eq_model, gen_phase_mask_eq_model, gen_select_row_eq_model, gen_select_iff. Direct selection with a boolean array (--mask): direct_mask_spec, direct_mask_alone, direct_mask_ignored_with_time; the array file is shared by the selections of a run and must stay as written.', ''),
  'C01': ('', ' Closure through the package\'s own entry points: a simulation with a weighted response set binned through xpbin\'s defaults (the IRFNAME of the file), the Chandra-to-IXPE '
          'converter with a polarization that changes with time.', ''),
- 'C02': ('', ' PCUBE files with the weights read from a column named by --weightcol and the response set left to the file\'s IRFNAME.', ''),
+ 'C02': ('; the event-list layer of xStokesAnalysis (constructor with its weight arrays, masked reductions, the row of polarization_table) is regenerated from the vectorised source (translator/vectrans.py)',
+         ' T-tie: gen_init_eq_model, gen_table_row_eq_model, gen_analysis_eq_model, gen_neff_scalar_eq_model (AnaTie lemmas: gen_energy_mask_eq, gen_sum_stokes_eq, gen_w2_eq, gen_effective_mu_eq, gen_average_energy_eq). PCUBE files with the weights read from a column named by --weightcol and the response set left to the file\'s IRFNAME.', ''),
  'C06': ('', ' delta_phi_ampl_eq_stokes: the amplitude / phase flavour of the spurious-modulation correction equals the Stokes flavour, for negative amplitudes too.', ''),
  'C10': ('; _time_header_keywords, time_selected, phase_selected and average_deadtime_per_event are regenerated from the source (imperative translator over RealLike: optional values, '
          'dictionary with literal keys, unbound names as failure) and proved equal to the model',
